@@ -200,11 +200,69 @@ theorem premium_refuses_zero_resolution (vol : Rat) (wp ep : List Rat) (wres ere
     (c : Bool) : programEarnedPremium vol wp wres ep eres 0 off c = .error .other := by
   simp [programEarnedPremium]
 
--- OPEN premium_sums
---   programEarnedPremium vol wp wres ep eres ores off c = .ok (w, e) → w.sum = vol ∧ e.sum = vol
--- OPEN premium_nonneg
---   0 ≤ vol → (∀ x ∈ wp, 0 ≤ x) → (∀ x ∈ ep, 0 ≤ x) →
---   programEarnedPremium … = .ok (w, e) → (∀ x ∈ w, 0 ≤ x) ∧ (∀ x ∈ e, 0 ≤ x)
+/-- **premium_sums.** whenever the call succeeds, the writing pattern and the earning pattern each
+sum to the premium volume -/
+theorem premium_sums {vol : Rat} {wp ep : List Rat} {wres eres ores : Nat} {off : Int} {c : Bool}
+    {w e : List Rat} (h : programEarnedPremium vol wp wres ep eres ores off c = .ok (w, e)) :
+    w.sum = vol ∧ e.sum = vol := by
+  unfold programEarnedPremium at h
+  split at h
+  · cases h
+  · rename_i hcond
+    simp only [Bool.or_eq_true, beq_iff_eq, not_or] at hcond
+    obtain ⟨⟨⟨⟨hw, he⟩, hwr⟩, her⟩, hor⟩ := hcond
+    simp only [Except.ok.injEq, Prod.mk.injEq] at h
+    obtain ⟨rfl, rfl⟩ := h
+    have hmw := monthlyWriting_sum vol wp wres hw hwr
+    have hme := monthlyEarning_sum ep eres c he her
+    obtain ⟨hlen, hsum⟩ := monthlyCombined_spec (monthlyWriting vol wp wres) (monthlyEarning ep eres c)
+    have hmepos : 1 ≤ (monthlyEarning ep eres c).length := by
+      cases hl : monthlyEarning ep eres c with
+      | nil => rw [hl] at hme; simp at hme
+      | cons _ _ => simp
+    have hstop : 0 < (if off > 0 then off.toNat else ores) := by
+      split <;> omega
+    constructor
+    · simp only [List.sum_cons, zero_add]
+      rw [bounds_sum _ ores _ (by omega) (by omega) _ 0 _ (by omega) (.inl hstop) (by omega)]
+      simpa using hmw
+    · simp only [List.sum_cons, zero_add]
+      rw [bounds_sum _ ores _ (by omega) (le_refl _) _ 0 _ (by omega) (.inl hstop) (by omega)]
+      simp only [List.drop_zero]
+      rw [hsum, hmw, hme, mul_one]
+
+/-- **premium_nonneg.** non-negative volume and patterns give non-negative output patterns -/
+theorem premium_nonneg {vol : Rat} {wp ep : List Rat} {wres eres ores : Nat} {off : Int} {c : Bool}
+    {w e : List Rat} (hv : 0 ≤ vol) (hwp : ∀ x ∈ wp, 0 ≤ x) (hep : ∀ x ∈ ep, 0 ≤ x)
+    (h : programEarnedPremium vol wp wres ep eres ores off c = .ok (w, e)) :
+    (∀ x ∈ w, 0 ≤ x) ∧ (∀ x ∈ e, 0 ≤ x) := by
+  unfold programEarnedPremium at h
+  split at h
+  · cases h
+  · rename_i hcond
+    simp only [Bool.or_eq_true, beq_iff_eq, not_or] at hcond
+    obtain ⟨⟨⟨⟨hw, he⟩, _⟩, _⟩, _⟩ := hcond
+    simp only [Except.ok.injEq, Prod.mk.injEq] at h
+    obtain ⟨rfl, rfl⟩ := h
+    have hmw : NN (monthlyWriting vol wp wres) := monthlyWriting_nn hv hwp hw
+    have hme : NN (monthlyEarning ep eres c) := monthlyEarning_nn hep he
+    have hmc := monthlyCombined_nn hmw hme
+    constructor
+    · intro x hx
+      rcases List.mem_cons.mp hx with rfl | hx
+      · exact le_refl _
+      · obtain ⟨b, _, rfl⟩ := List.mem_map.mp hx
+        exact hmw.bucket b
+    · intro x hx
+      rcases List.mem_cons.mp hx with rfl | hx
+      · exact le_refl _
+      · obtain ⟨b, _, rfl⟩ := List.mem_map.mp hx
+        exact hmc.bucket b
+
+/-- non-vacuity: the fixture of `test_program_earned_premium` -/
+example : programEarnedPremium 600 [1] 1 [1, 1, 1, 1, 1, 1] 1 1 0 true =
+    .ok ([0, 600, 0, 0, 0, 0, 0, 0], [0, 50, 100, 100, 100, 100, 100, 50]) := by decide +kernel
+
 -- OPEN premium_earned_le_written
 --   same hypotheses → ∀ k, ((e.take k).sum ≤ (w.take k).sum)
 --   (convolution bound Σ_{n≤m} w_n·E(m−n) ≤ Σ_{n≤m} w_n with E the cumulative earning fraction ≤ 1)
